@@ -65,6 +65,15 @@ CHECKS = {
               "environment entries starting with '=' are crash-freedom only."),
         design="DESIGN.md section 3 C12",
     ),
+    "C13": dict(
+        level="exploration",
+        technique="property-based testing (Hypothesis): generated statm / smaps / smaps_rollup records -> sums over the model mappings, roll-up vs per-mapping differential",
+        text=("Generated statm tuples and smaps listings (repeated paths, paths with spaces/colons/' (deleted)', optional and non-kB lines, values to 2^40 kB, old-kernel line sets) with the "
+              "roll-up file present or failing are parsed by the real code; memory_info, memory_full_info (both sources), memory_maps (both forms, conservation of sums) and memory_percent "
+              "are compared with the model. Search, not proof."),
+        note=("Trusted: vlib/simk.py smaps/statm renderers, calibrated byte-exactly against the live /proc/self/smaps each run. The roll-up holds exact sums; all mappings of a process print the same set of lines."),
+        design="DESIGN.md section 3 C13",
+    ),
     "C19": dict(
         level="exploration",
         technique="property-based testing (Hypothesis): generated /sys and /proc hardware trees -> statement arithmetic on the model tree",
